@@ -170,6 +170,35 @@ def gen(ctx):
         cases.extend(_mk(st, sc, sp, call, via))
         if k % 2 == 0:
             cases.extend(_line_cases(st, sc, sp, call))
+    # (2b) large files (beyond any I/O buffer size: 10-60 KiB) whose only irregular line comes late: a multi-protein PSM,
+    #      a short line or a long line at a random position in the last third; via file and StringIO
+    rng = ctx.sub("large")
+    for k in range(24 if ctx.thorough else 8):
+        npre, npost = rng.randint(1, 5), rng.randint(0, 4)
+        nrows = rng.choice([150, 300, 600, 900])
+        late = rng.randrange(2 * nrows // 3, nrows)
+        kind = ["multi-protein", "short-line", "regular", "multi-protein"][k % 4]
+        rows = []
+        for ri in range(nrows):
+            pre = ["f%d_%d" % (ri, j) for j in range(npre)]
+            post = ["g%d_%d" % (ri, j) for j in range(npost)]
+            prots = ["sp|P%05d|PROT_%d" % (ri, ri)]
+            if ri == late and kind == "multi-protein":
+                prots += ["sp|Q%05d|ALT" % ri, "sp|R%05d|ALT2" % ri]
+            rows.append({"pre": pre, "prots": prots, "post": post})
+        st = {"hdr_pre": ["c%d" % j for j in range(npre)], "hdr_post": ["d%d" % j for j in range(npost)], "dd": None,
+              "rows": rows, "final_nl": True}
+        via = "file" if k % 2 == 0 else "stringio"
+        if kind == "short-line" and npre + npost > 0:
+            txt = render(st, TAB).split("\n")
+            txt[1 + late] = TAB.join(txt[1 + late].split(TAB)[:-1])
+            txt = "\n".join(txt)
+            cases.append({"fn": "is_valid", "sc": TAB, "sp": ":", "call": "default", "via": via, "text": txt,
+                          "tags": ["large", "late-short-line", via, "bytes>%dk" % (len(txt) // 1024)]})
+        else:
+            for c in _mk(st, TAB, ":", "default", via):
+                c["tags"] = c["tags"] + ["large", "late-" + kind, "bytes>%dk" % (len(c["text"]) // 1024)]
+                cases.append(c)
     # (3) malformed / free-form stream
     rng = ctx.sub("malformed")
     nmal = 1500 if ctx.thorough else 400
